@@ -70,6 +70,8 @@ def gen_base(rng, tier, index):
         case["body_raises"] = True          # the with-block is left through an exception
     if case.get("quota") and index % 3 == 1:
         case["float_quota"] = True          # max_chunks_per_worker given as 3.0 instead of 3
+    if case.get("quota") and index % 4 == 2:
+        case["worker_opts"] = {"quota_after_init": True}      # the chunk limit set through the attribute after construction
     case["end_delay"] = rng.choice([0, 0.05, 0.15, 0.3])       # slow end(): an unjoined (replaced) worker is still in it
     case["begin_delay"] = rng.choice([0, 0, 0.05, 0.2])        # slow begin() in every second worker
     fault_kind = index % 5      # 0,1: none   2: begin   3: functor   4: none + ready between calls
